@@ -65,6 +65,9 @@ ROUTES = {"s": "'%s'", "v": "({valueOf: function () { return %s }})", "a": "[%s]
 # in-range small integers and a JSON text (C04.tla SmallClasses, SmallInts: i<n> = the number n)
 ARG_SRC.update({"one": "1", "three": "3", "sjson": "'[1,[2,3],{\"a\":[4]}]'"})
 
+# strings the host's predicates / conversions accept and the ECMAScript grammar does not (C04.tla KeyClasses); the source stays ASCII
+ARG_SRC.update({"k_sup": "'\\u00b2'", "k_circ": "'\\u2461'", "k_arab": "'\\u0663'", "k_frac": "'\\u00bd'", "k_us": "'1_0'"})
+
 # ---- hostile classes (C04.tla HostileSet): arguments with behaviour or structure ---------------------------------------
 # what one mutation does to the array t (MutKinds)
 MUT_BODY = {"push": "t.push(0);", "pop": "t.pop();", "len0": "t.length = 0;", "splice": "t.splice(0, 1);", "sort": "t.sort();",
